@@ -20,7 +20,9 @@ fn main() {
         // C14 silence check: run the workload, report through a file, never through the streams
         std::panic::set_hook(Box::new(|_| {}));
         let seed: u64 = std::env::var("VERIF_SEED").ok().and_then(|s| s.parse().ok()).unwrap_or(0);
-        let n = props::c14::silent_workload(seed);
+        let from: usize = args.get(3).and_then(|s| s.parse().ok()).unwrap_or(0);
+        let to: usize = args.get(4).and_then(|s| s.parse().ok()).unwrap_or(usize::MAX);
+        let n = props::c14::silent_workload(seed, from, to);
         if let Some(path) = args.get(2) {
             let _ = std::fs::write(path, format!("done {}", n));
         }
